@@ -58,7 +58,7 @@ func C08(p *ir.Program, r *report.R) {
 	// the signature pre-check trusts the mempool cache only for transactions that passed their basic check
 	c05Cache(c)
 	r.Floor = 60
-	r.Explain = "Decided: sign-field coverage per transaction kind, with the field list taken from the struct type (txdata, tokenData, ContractUpgradeMainInfo, MultiSignMainInfo, UTXOTransaction) so that a new field that is not signed is reported; the chain parameter is appended by both the signing and the verifying hash and the protected path of STDEIP155Signer.Sender is dominated by sign-param equality; recoverPlain reaches Ecrecover only after the V range and ValidateSignatureValues checks, with homestead rules from every reachable caller; the transaction hash (cache key, mempool identity) covers the signature for every kind and the cached sender is used only for an equal signer; the confidential spend authorisation message is the prefix hash that covers inputs, outputs, token, keys, fee, extra and the account signature, and the ring signatures are checked against the expanded signature built from it. ADDED after seeded-change testing: ValidateSignatureValues is interpreted exhaustively over the orderings of r and s against 1, N/2 and N, the homestead flag and v (1458 rows) against the specification, and secp256k1halfN is N/2; UTXOTransaction.CheckBasic returns nil only after checkTxInputKeys (ring signatures) whenever the transaction has a confidential input. every re-signing site that copies a payload resets the copy's sender cache; in verifyTxsOnProcess the error of every From/CheckTx call is assigned to the variable reported through the goroutine's result slot. Rounds 4-5: the ring-signature message is recomputed, never memoised across a re-sign; the mempool signature cache rule is shared. NOT decided: soundness of secp256k1/ed25519/RingCT (cgo), one-time address ownership (cryptographic, no structural clause)."
+	r.Explain = "Decided: sign-field coverage per transaction kind, with the field list taken from the struct type (txdata, tokenData, ContractUpgradeMainInfo, MultiSignMainInfo, UTXOTransaction) so that a new field that is not signed is reported; the chain parameter is appended by both the signing and the verifying hash and the protected path of STDEIP155Signer.Sender is dominated by sign-param equality; recoverPlain reaches Ecrecover only after the V range and ValidateSignatureValues checks, with homestead rules from every reachable caller; the transaction hash (cache key, mempool identity) covers the signature for every kind and the cached sender is used only for an equal signer; the confidential spend authorisation message is the prefix hash that covers inputs, outputs, token, keys, fee, extra and the account signature, and the ring signatures are checked against the expanded signature built from it. ADDED after seeded-change testing: ValidateSignatureValues is interpreted exhaustively over the orderings of r and s against 1, N/2 and N, the homestead flag and v (1458 rows) against the specification, and secp256k1halfN is N/2; UTXOTransaction.CheckBasic returns nil only after checkTxInputKeys (ring signatures) whenever the transaction has a confidential input. every re-signing site that copies a payload resets the copy's sender cache; in verifyTxsOnProcess the error of every From/CheckTx call is assigned to the variable reported through the goroutine's result slot. Rounds 4-5: the ring-signature message is recomputed, never memoised across a re-sign; the mempool signature cache rule is shared. Round 6: the worker shape of the signature pre-check is checked here too. NOT decided: soundness of secp256k1/ed25519/RingCT (cgo), one-time address ownership (cryptographic, no structural clause)."
 	r.Trusted = []string{"crypto.Ecrecover / ValidateSignatureValues (secp256k1)", "xcrypto RingCT (cgo)", "rlpHash = Keccak(ser encoding) (C11)"}
 
 	sigEx := func(m map[string]string) map[string]string {
